@@ -8,12 +8,14 @@ package main
 
 import (
 	"bufio"
+	"bytes"
 	"context"
 	"encoding/json"
 	"flag"
 	"fmt"
 	"io"
 	"math/rand"
+	"net"
 	"net/http"
 	"os"
 	"sort"
@@ -50,7 +52,7 @@ type Step struct {
 	Has      []string `json:"has"`
 	Bel      []Belief `json:"bel"`
 	Entry    string   `json:"entry"`
-	Ext      bool     `json:"ext"`
+	Ext      string   `json:"ext"` // what the client says about the forward marker: none | forged | false | hide
 	Route    string   `json:"route"` // http | tcp
 	Mode     string   `json:"mode"`  // host | header | tcp
 	Target   string   `json:"target"`
@@ -64,8 +66,11 @@ type Step struct {
 	Cmd      string   `json:"cmd"`
 	Note     string   `json:"note"`
 	// C16 (op Life / Expiry)
-	Ev       string   `json:"ev"`  // the event that preceded this observation
-	Lst      []Lstate `json:"lst"` // every listener: endpoint and client-side state
+	Ev       string   `json:"ev"`     // the command that preceded this observation
+	C        string   `json:"c"`      // its connection (listener identity)
+	E        string   `json:"e"`      // its endpoint (request)
+	Served   string   `json:"served"` // request: identity stamped by the listener that answered
+	Lst      []Lstate `json:"lst"`    // unused
 	Reg      []EC     `json:"reg"` // Manager.Endpoints()
 	Sess     int      `json:"sess"`
 	Adv      []EC     `json:"adv"` // cluster.State local endpoints
@@ -112,6 +117,11 @@ type sched struct {
 	LogDir     string            `json:"logDir"`
 	Cases      [][]interface{}   `json:"cases"` // c18: [victim, phase, kill]
 	Behaviours [][][]interface{} `json:"behaviours"`
+	ConnE1     []string          `json:"connE1"` // c16: listener identities per endpoint
+	ConnE2     []string          `json:"connE2"`
+	Walks      int               `json:"walks"`
+	Par        int               `json:"par"`
+	Expiry     bool              `json:"expiry"`
 }
 
 var names = []string{"a", "b", "c", "d"}
@@ -186,12 +196,42 @@ func (c *cluster) quiesce() map[string]int {
 
 // tcpRequest opens a tunnelled TCP connection (the WebSocket TCP route) and
 // speaks HTTP over it to the stamping upstream.
-func tcpRequest(proxyAddr, endpoint string, ext bool) psim.Reply {
-	hdr := http.Header{}
-	if ext {
-		hdr.Set("x-piko-forward", "true")
+// hideConn rewrites the websocket handshake so that the Connection header also names the forward marker
+// (the dialer refuses a second Connection header).
+type hideConn struct {
+	net.Conn
+	done bool
+}
+
+func (h *hideConn) Write(b []byte) (int, error) {
+	if !h.done {
+		h.done = true
+		nb := bytes.Replace(b, []byte("Connection: Upgrade\r\n"), []byte("Connection: Upgrade, x-piko-forward\r\n"), 1)
+		if _, err := h.Conn.Write(nb); err != nil {
+			return 0, err
+		}
+		return len(b), nil
 	}
+	return h.Conn.Write(b)
+}
+
+func tcpRequest(proxyAddr, endpoint string, ext string) psim.Reply {
+	hdr := http.Header{}
 	d := websocket.Dialer{HandshakeTimeout: 3 * time.Second}
+	switch ext {
+	case "forged":
+		hdr.Set("x-piko-forward", "true")
+	case "false":
+		hdr.Set("x-piko-forward", "false")
+	case "hide":
+		d.NetDialContext = func(ctx context.Context, network, addr string) (net.Conn, error) {
+			c, err := (&net.Dialer{}).DialContext(ctx, network, addr)
+			if err != nil {
+				return nil, err
+			}
+			return &hideConn{Conn: c}, nil
+		}
+	}
 	ws, resp, err := d.Dial("ws://"+proxyAddr+"/_piko/v1/tcp/"+endpoint, hdr)
 	if err != nil {
 		st := 0
@@ -251,7 +291,7 @@ type c06case struct {
 	has   []string
 	bel   map[string][]string
 	entry string
-	ext   bool
+	ext   string
 	route string
 }
 
@@ -322,8 +362,13 @@ func runC06(c *cluster, cases []c06case, emit emitter) error {
 		var rep psim.Reply
 		if cs.route == "http" {
 			hdr := map[string]string{}
-			if cs.ext {
+			switch cs.ext {
+			case "forged":
 				hdr["x-piko-forward"] = "true"
+			case "false":
+				hdr["x-piko-forward"] = "false"
+			case "hide":
+				hdr["Connection"] = "x-piko-forward"
 			}
 			rep = psim.Request(c.byID[cs.entry].ProxyAddr(), "header", "e", "GET", "/c06", hdr, nil)
 		} else {
@@ -382,7 +427,7 @@ func allC06(ids []string) []c06case {
 	for _, has := range subsets(ids) {
 		for _, bel := range belChoices {
 			for _, entry := range ids {
-				for _, ext := range []bool{false, true} {
+				for _, ext := range []string{"none", "forged", "false", "hide"} {
 					for _, route := range []string{"http", "tcp"} {
 						out = append(out, c06case{has: has, bel: bel, entry: entry, ext: ext, route: route})
 					}
@@ -423,7 +468,7 @@ func runC01Placement(c *cluster, placed []Placed, emit emitter, rng *rand.Rand) 
 				var rep psim.Reply
 				switch mode {
 				case "tcp":
-					rep = tcpRequest(c.byID[entry].ProxyAddr(), target, false)
+					rep = tcpRequest(c.byID[entry].ProxyAddr(), target, "none")
 				default:
 					// a conflicting Host label when the header names the endpoint
 					hdr := map[string]string{}
@@ -492,7 +537,7 @@ func runC01Churn(c *cluster, rounds int, emit emitter, rng *rand.Rand) {
 		}
 		var rep psim.Reply
 		if mode == "tcp" {
-			rep = tcpRequest(c.byID[entry].ProxyAddr(), target, false)
+			rep = tcpRequest(c.byID[entry].ProxyAddr(), target, "none")
 		} else {
 			rep = psim.Request(c.byID[entry].ProxyAddr(), mode, target, "GET", "/churn", nil, nil)
 		}
@@ -582,7 +627,7 @@ func main() {
 		}
 		steps++
 		byOp[s.Op]++
-		distinct[fmt.Sprintf("%s/%d/%s/%v", s.Op, s.Status, s.ServedBy+s.ServedE, s.Runs)] = true
+		distinct[fmt.Sprintf("%s/%d/%s/%v/%s%v%d", s.Op, s.Status, s.ServedBy+s.ServedE, s.Runs, s.Ev, s.Reg, s.Sess)] = true
 		_ = enc.Encode(s)
 	}
 	fail := func(err error) {
@@ -594,7 +639,7 @@ func main() {
 	emit(&Step{Op: "Reset"})
 
 	// replay
-	if len(sf.Behaviours) > 0 {
+	if len(sf.Behaviours) > 0 && sf.Mode != "c16" {
 		for _, beh := range sf.Behaviours {
 			for _, a := range beh {
 				if len(a) < 10 {
@@ -696,12 +741,13 @@ func main() {
 		}
 		c.stop()
 	case "c16":
-		for i := 0; i < sf.Sample; i++ {
-			if err := runC16(rng, 10+rng.Intn(8), emit); err != nil {
-				fail(err)
-			}
+		if err := runC16(&sf, *seed, emit); err != nil {
+			fail(err)
 		}
 		for _, disabled := range []bool{false, true} {
+			if !sf.Expiry {
+				break
+			}
 			if err := runExpiry(disabled, emit); err != nil {
 				fail(err)
 			}
